@@ -8,6 +8,31 @@ BASE = "cd /repo && /venv/bin/python -m pytest -ra -q -p no:cacheprovider --time
 
 # id -> dict(level, text, note, technique, design_ref, engine)
 CLAIMS = {
+ "C07": dict(
+  level="model_checking",
+  text="Storage.tla pins the slot layout of both SoCs (SlotsDisjoint ASSUMEd and checked) and builds the expected image: "
+       "slot = {0:1, 1:class-ID offset, 2:bstr envelope} padded with 0xFF, stored envelope = the input's non-severable "
+       "integer-keyed members with their original bytes. Storage_MC checks the add/reject/write pipeline over role subsets "
+       "x 2 SoCs x one fault of each kind at any position (no file unless all accepted; files hold only own roles). "
+       "TLC-enumerated role lists are concretised (real create, some signed, default and Kconfig assignments, several base "
+       "addresses) and run through the real image boot; every domain hex file is judged record by record by TLC through "
+       "the HEX reader machine; the recorded class-ID offset must point at the manifest's class UUID.",
+  note="Trusted: TLC, own hex tokenizer and CBOR reader, the pinned layout tables. Component ids use the NCS form "
+       "['INSTLD_MFST', class UUID] (O9). nRF9280 only through the library entry point (image boot has no SoC switch; "
+       "ncs/build.py storage needs a Zephyr devicetree pickle that is not available offline).",
+  technique="TLA+ spec (Storage.tla, Hex.tla, Storage_MC.tla) + TLC model checking + TLC-generated role lists replayed into real image boot + TLC trace validation of hex output",
+  design_ref="DESIGN.md 4.9, 4.10, 5 (C07)", engine="tlc"),
+ "C13": dict(
+  level="model_checking",
+  text="Assign.tla states the identity triangle on terms (every 16-byte identifier found in the manifest from create, the "
+       "MPI record and the boot slot is looked up among the UUIDv5 values the verifier computes) and the role-assignment "
+       "rule (RoleOf, ConfigRejected). Assign_MC checks the storage-construction state machine over all 216 configurations "
+       "of the three configurable roles against that rule; the configurations are replayed as Kconfig files into the real "
+       "image boot with an envelope of each pair; names cover ASCII, non-ASCII, empty, 300 characters and Kconfig-hostile "
+       "characters.",
+  note="Trusted: own UUIDv5 (hashlib.sha1), own readers, TLC. Names containing \" or \\ only in an observation stream (O8).",
+  technique="TLA+ spec (Assign.tla, Assign_MC.tla) + TLC exhaustive model checking + TLC-generated configurations replayed into real image boot/mpi/create + TLC trace validation",
+  design_ref="DESIGN.md 4.10, 4.13, 5 (C13)", engine="tlc"),
  "C11": dict(
   level="model_checking",
   text="Extract.tla states conservation (every integrated payload of the input hierarchy in exactly one place with identical "
